@@ -84,6 +84,10 @@ def leaf_coq(l, cat_dtypes):
         return "LAny"
     if l == "pytree":
         return "LPyTreeBare"
+    if l == "tpair":
+        # a typing.NamedTuple class with array-annotated fields: the typechecker checks the class, then field by field
+        # (values of another class are never generated for it, so the model's positional LTuple is faithful)
+        return leaf_coq(["tuple", TPAIR_FIELDS], cat_dtypes)
     k = l[0]
     if k == "tuple":
         return "(LTuple %s)" % coqlist(l[1], lambda x: leaf_coq(x, cat_dtypes))
@@ -96,8 +100,13 @@ def leaf_coq(l, cat_dtypes):
     raise KeyError(k)
 
 
+TPAIR_FIELDS = [["arr", "Float", "a"], ["arr", "Float", "a b"]]
+
+
 def leaf_dims(l):
     """all dim strings mentioned by a leaf type (for the symbol table)"""
+    if l == "tpair":
+        return ["a", "a b"]
     if isinstance(l, str):
         return []
     if l[0] in ("tuple", "union"):
